@@ -17,6 +17,11 @@ long-lived ctpolicy.LogGroupInfo objects.  Distributor.tla's wire cases put thre
 key from the log list) behind a real Distributor: the reply classes of a log on the wire, of which only a valid SCT under
 the listed key over the submitted entry is an SCT.
 
+spec/submit/DistributorList.tla (round 6): a WHOLE log list behind one distributor - four logs (state, temporal interval,
+answer to every get-roots of a refresh history), constructor-option set, policy, method, pending load, chain with / without
+its root; named clauses KnownByLastRefresh, OptionKnowsNothing, PendingLoad; families R / T / H exhaustive, S simulated;
+replayed by TestDistributorList against NewDistributor(+options) / RefreshRoots* / AddChain|AddPreChain under virtual time.
+
 spec/submit/ProxyLifecycle.tla: WHICH log list a submission runs against - the refresher (read / compare / parse), the
 LogListManager's ticker goroutine and its two capacity-1 channels, the proxy loop (builder, swap under distMu, Init), one
 root refresher per distributor generation, submissions reading p.dist, cancellation; safety exhaustively on small constants
@@ -57,9 +62,16 @@ def run(ctx, replay=None):
         if isinstance(beh, dict) and "steps" in beh and "gates" in beh:
             proxy_replay(ctx, [beh])
             return
+        if isinstance(beh, dict) and isinstance(beh.get("c"), dict) and beh["c"].get("t") == "list":
+            ctx.go_test("vt/c17", run="TestDistributorList$", toolchain="go1.26", timeout=3000, name="dist-list",
+                        env={"VERIF_LIST_CASES": ctx.write_ndjson("lcases.ndjson", [beh])})
+            return
         ctx.log("replay file carries no proxy behaviour; running the whole check")
     # 0. the log-list / distributor life-cycle of the proxy
-    only = os.environ.get("VERIF_C17_ONLY", "")     # development aid: "proxy" / "proxybind" / "submission" run a part
+    only = os.environ.get("VERIF_C17_ONLY", "")     # development aid: "proxy" / "proxybind" / "submission" / "dist" run a part
+    if only == "dist":
+        distributor_cases(ctx)
+        return
     if only != "submission":
         proxy_lifecycle(ctx, model=(only != "proxybind"))
     if only in ("proxy", "proxybind"):
@@ -104,14 +116,8 @@ def run(ctx, replay=None):
             raise Infra("SubmissionDuoSessionsOld: TLC was expected to refute FailureHonest but reported %r" % r.violated)
         ctx.notes["submission-observations"] = {"DuoSessionsOld": "FailureHonest refuted by TLC for RecomputeVerdict = FALSE (verdicts of the races instead of the shared state)"}
     wpath = ctx.write_ndjson("weight-histories.ndjson", wbehs)
-    # 2. policy / eligibility / wire cases
-    ctx.tlc("submit", "MCDistributor", "Distributor.cfg", workers=4)
-    r = ctx.tlc("submit", "MCDistributor", "DistributorExport.cfg", workers=1, count=False)
-    dcases = r.records.get("CASE", [])
-    if not dcases or not any(c["c"]["t"] == "wire" for c in dcases):
-        raise Infra("no distributor / wire cases")
-    path = ctx.write_ndjson("dcases.ndjson", dcases)
-    ctx.go_test("vt/c17", run="TestDistributor$|TestWire$", env={"VERIF_CASES": path}, toolchain="go1.26", timeout=3000, name="dist")
+    # 2. policy / eligibility / wire cases, whole log lists
+    distributor_cases(ctx)
     # 3. GetSCTs scenarios under virtual time, with H4 traces (several processes in the thorough tier: each draws
     #    another sample of the latency assignments, and a toolchain crash costs one chunk only)
     #    The race detector is applied to a smaller sample in a separate process: under -race the go1.26.8 runtime
@@ -127,6 +133,60 @@ def run(ctx, replay=None):
                      "VERIF_WEIGHT_BEHS": ctx.write_ndjson("weight-histories-race.ndjson", wbehs[::5])})
     # 4. data races
     ctx.go_test("vt/c17", run="TestRaces$", toolchain="go1.26", race=True, timeout=3000, name="races")
+
+
+def distributor_cases(ctx):
+    ctx.tlc("submit", "MCDistributor", "Distributor.cfg", workers=4)
+    r = ctx.tlc("submit", "MCDistributor", "DistributorExport.cfg", workers=1, count=False)
+    dcases = r.records.get("CASE", [])
+    if not dcases or not any(c["c"]["t"] == "wire" for c in dcases):
+        raise Infra("no distributor / wire cases")
+    path = ctx.write_ndjson("dcases.ndjson", dcases)
+    lpath = ctx.write_ndjson("lcases.ndjson", list_cases(ctx))
+    ctx.go_test("vt/c17", run="TestDistributor$|TestWire$|TestDistributorList$", env={"VERIF_CASES": path, "VERIF_LIST_CASES": lpath},
+                toolchain="go1.26", timeout=3000, name="dist")
+
+
+def list_cases(ctx):
+    """DistributorList.tla: a whole log list behind one distributor.  The families R (root-refresh dimension), T
+    (constructor option x temporal interval) and H (two-refresh histories) exhaustively, the cross product of all
+    dimensions (S) sampled by the simulator."""
+    ctx.assumptions += [
+        "log-list cases: four logs (two Google, two other operators); families R (every state x get-roots answer, one "
+        "refresh), T (every state x interval under every option set, both methods) and H (every pair of answers over two "
+        "refreshes, four usable logs) exhaustively up to the symmetry of same-operator-class logs; the cross product with refresh histories of length 0..2, all interval positions, 2 or 3 "
+        "SCTs demanded, pending load and chains sent without their root is sampled by the simulator; every log answers a "
+        "submission with an SCT at once",
+    ]
+    # the sanity invariants of the specification are checked in the same runs that export the cases (DistributorList.cfg
+    # is the same model without the export, for -coverage)
+    runs = [dict(cfg="DistributorListExport.cfg", workers=1),
+            dict(cfg="DistributorListSim.cfg", simulate=ctx.pick(1500, 20000), depth=5, count=False)]
+    with ThreadPoolExecutor(max_workers=2) as ex:
+        res = list(ex.map(lambda kw: ctx.tlc("submit", "MCDistributorList", kw.pop("cfg"), timeout=3000, **kw), runs))
+    core, sim = res[0].records.get("LCASE", []), res[1].records.get("LCASE", [])
+    fams = {f: sum(1 for c in core + sim if c["c"]["fam"] == f) for f in "RTHS"}
+    if not all(fams.values()):
+        raise Infra("log-list cases: a family is empty: %r" % fams)
+    # vacuity: the classes the dimensions were added for must be among the cases
+    def some(pred):
+        return any(pred(c["c"], c["expect"]) for c in core + sim)
+    need = {
+        "unknown-root logs suffice while as many logs answered get-roots as there are usable ones":
+            lambda c, e: c["fam"] == "R" and e["success"] and c["refreshes"] and
+            len(e["known"]) >= sum(1 for l in c["logs"].values() if l["state"] == "usable") and
+            not any(c["cert"]["root"] in {"RA": ["RA"], "RB": ["RB"], "RAB": ["RA", "RB"]}[c["refreshes"][-1][s]] for s in e["known"]),
+        "option set, a usable log outside its interval, success without it":
+            lambda c, e: c["noRootCheck"] and e["success"] and len(e["eligible"]) < sum(1 for l in c["logs"].values() if l["state"] == "usable"),
+        "no refresh yet": lambda c, e: not c["refreshes"] and e["success"],
+        "two refreshes, a log known by the first only": lambda c, e: len(c["refreshes"]) == 2 and not c["noRootCheck"] and any(
+            c["refreshes"][0][s] != "fail" and c["refreshes"][1][s] == "fail" and c["logs"][s]["state"] == "usable" for s in c["logs"]),
+    }
+    for name, pred in need.items():
+        if not some(pred):
+            raise Infra("log-list cases: no case of the class '%s'" % name)
+    ctx.notes["distributor-list-cases"] = fams
+    return core + sim
 
 
 def chunk_file(ctx, behs, chunk, nchunks):
